@@ -1,0 +1,16 @@
+//! Verification hooks (cargo feature `verif_hooks`, off by default).
+//!
+//! Thin public wrappers over crate-private items so that an external harness can drive them.
+//! Nothing here changes behaviour; with the feature off this module is not compiled.
+
+use crate::curves::interpolation::utils::index_left;
+
+/// `index_left` on a list of floats.
+pub fn index_left_f64(list: &[f64], value: f64, left_count: Option<usize>) -> usize {
+    index_left(list, &value, left_count)
+}
+
+/// `index_left` on a list of integer timestamps.
+pub fn index_left_i64(list: &[i64], value: i64, left_count: Option<usize>) -> usize {
+    index_left(list, &value, left_count)
+}
